@@ -166,6 +166,19 @@ func (e *Env) Advance(p *PeerH, c *Conn, st int, timeout time.Duration) (*Parsed
 	if st == StOpenSent {
 		return o, nil
 	}
+	if st == StEstablished && w.Chance(1, 5, "pipelined-handshake") {
+		// a remote that does not wait for corebgp's KEEPALIVE: OPEN and KEEPALIVE
+		// back to back in one stream
+		nest := p.Plug.NEst
+		c.SendSeg(append(p.Speaker.OpenFrame(), KeepaliveFrame()...))
+		w.Probe("remote-pipelines-open-and-keepalive")
+		if !w.WaitUntil("advance.est", timeout, func() bool { return p.Plug.NEst > nest && p.Plug.IsUp() }) {
+			return o, fmt.Errorf("no OnEstablished after a pipelined OPEN+KEEPALIVE on %s (frames %s, closed=%v)", c, descFrames(c.AllFrames()), c.LocalClosed())
+		}
+		c.Cursor = c.NFrames()
+		w.Quiesce()
+		return o, nil
+	}
 	c.SendSeg(p.Speaker.OpenFrame())
 	f := c.WaitFrame(timeout)
 	if f == nil || f.Type != MsgKeepalive {
